@@ -56,7 +56,18 @@ def _env():
         out.append(c(Duck((k,)), F["a"]))
         return out
 
-    return dict(Duck=Duck, F=F, PT=PT, PU=PU, PA=PA, c=c, pb=pb, f=f, outer=outer, jaxtyped=jaxtyped)
+    @jaxtyped(typechecker=typeguard.typechecked)
+    def ctx_in_call(x: F["n"], k: int):
+        out = [pb()]
+        with jaxtyped("context"):
+            out.append(c(Duck((k + 1,)), F["n"]))
+            out.append(pb())
+        out.append(c(Duck((k + 1,)), F["n"]))
+        out.append(pb())
+        return out
+
+    AA = Float[Duck, "a a"]
+    return dict(Duck=Duck, F=F, PT=PT, PU=PU, PA=PA, c=c, pb=pb, f=f, outer=outer, jaxtyped=jaxtyped, ctx_in_call=ctx_in_call, AA=AA)
 
 
 _ENV = None
@@ -146,6 +157,39 @@ def workload(name):
 
         return body
 
+    def small_ctx(n):
+        def body():
+            out = []
+            with jaxtyped("context"):
+                out.append(c(Duck((n,)), F["n"]))
+                out.append(c(Duck((n + 1,)), F["n"]))
+                out.append(pb())
+            out.append(c(Duck((n + 1,)), F["n"]))
+            return out
+
+        return body
+
+    def call_with_ctx(k):
+        def body():
+            try:
+                return e["ctx_in_call"](Duck((k,)), k)
+            except Exception as ex:  # noqa: BLE001
+                return [type(ex).__name__, str(ex)[:80]]
+
+        return body
+
+    def bare_pair(s, t):
+        def body():
+            from jaxtyping import PyTree
+
+            return [c(Duck((s, t)), e["AA"]), c(Duck((s, s)), e["AA"]), c((1, (2, 3)), PyTree[int, "T"]), c(Duck((t,)), F["a"]), pb()]
+
+        return body
+
+    if name == "W5":  # two context blocks open at the same time at different stack depths
+        return [small_ctx(3), call_with_ctx(6)]
+    if name == "W6":  # both threads check OUTSIDE any context (temporary memos)
+        return [bare_pair(3, 4), bare_pair(5, 6)]
     if name == "W1":
         return [ctx_block(2, 3), bare(5, 7)]
     if name == "W2":
@@ -228,9 +272,9 @@ def run(ctx):
     from .. import sched
 
     if ctx.quick:
-        plan = [("W1", 1, "lines"), ("W2", 1, "lines"), ("W3", 1, "storage"), ("W4", 1, "lines")]
+        plan = [("W1", 1, "lines"), ("W2", 1, "lines"), ("W3", 1, "storage"), ("W4", 1, "lines"), ("W5", 2, "storage"), ("W6", 1, "lines")]
     else:
-        plan = [("W1", 2, "lines"), ("W2", 2, "storage"), ("W2", 1, "lines"), ("W3", 1, "lines"), ("W4", 1, "lines"), ("W4", 2, "storage")]
+        plan = [("W1", 2, "lines"), ("W2", 2, "storage"), ("W2", 1, "lines"), ("W3", 1, "lines"), ("W4", 1, "lines"), ("W4", 2, "storage"), ("W5", 2, "lines"), ("W6", 2, "storage"), ("W6", 1, "lines")]
     jobs, meta = [], {}
     for wname, bound, mode in plan:
         name = wname
